@@ -71,7 +71,11 @@ func VendorClass(k Kind) (string, string) {
 func Content(k Kind, name, marker string) []byte {
 	var doc map[string]any
 	dev := func(n string) map[string]any {
-		return map[string]any{"name": n, "containerEdits": map[string]any{"env": []any{"SRC=" + marker, "DEV=" + n}}}
+		// env entries identify the source; the hook and the device node are edits that are not
+		// idempotent (injecting a device twice shows in the OCI spec)
+		return map[string]any{"name": n, "containerEdits": map[string]any{"env": []any{"SRC=" + marker, "DEV=" + n},
+			"hooks":       []any{map[string]any{"hookName": "prestart", "path": "/hook/" + n, "args": []any{"hook", marker}}},
+			"deviceNodes": []any{map[string]any{"path": "/dev/" + n, "type": "c", "major": 10, "minor": 7}}}}
 	}
 	switch k {
 	case X:
